@@ -1,5 +1,6 @@
 import I2N.Model.Transfer
 import I2N.Lemmas.Transfer
+import I2N.Extracted.GenTransfer
 /-!
 # C14 — Pool transfers are exact, never destroy data, and exclude each other
 
@@ -531,5 +532,224 @@ example : mutexTrace [.acq 1 "P", .acq 2 "P"] = false := by decide
 example : mutexTrace [.acq 1 "P", .rel 1 "P", .fsop 1 "P"] = false := by decide
 
 end examples
+
+/-! ## The regenerated compare-then-copy decisions (`harness/pygen.py`)
+
+`I2N/Extracted/GenTransfer.lean` is regenerated on every run from the source of `TransferOps.compare_local`,
+`compare_link`, `download_local`, `upload_local`, `delete_local`, `download_link`, `upload_link` (Python AST → Lean `do`
+block in the state monad `M = StateT FS (Except Err)`: `os.path.exists` / `islink` / `realpath` read the file system,
+`shutil.copy` / `os.unlink` / `os.symlink` replace it or raise, `with image_lock(…)` is translated in place — the lock
+protocol is part (b) —, `os.makedirs` and log calls are dropped, `raise` is `throw`).  The theorems say that the hand
+written big-step operations of `I2N.Transfer` ARE these functions: which comparison is made, what is skipped, what is
+copied where, which error is raised, in which order. -/
+
+section Regenerated
+open I2N.Extracted.GenTransfer
+
+/-- the number of leading bytes `compare_local` hashes, as written in the Python source (`hash_file(path, 1048576, …)`) -/
+def sourceLimit : Nat := 1048576
+
+/-- what a translated function of type `M Unit` makes of a file system, in the vocabulary of the model -/
+def runM (m : M Unit) (fs : FS) : Except Err FS := (m.run fs).map (·.2)
+
+local macro "m_simp" " [" ts:Lean.Parser.Tactic.simpLemma,* "]" : tactic => `(tactic|
+  simp [readFS, stepFS, StateT.run, bind, StateT.bind, Except.bind, Except.map, pure, StateT.pure, Except.pure, throw,
+    throwThe, MonadExceptOf.throw, StateT.lift, liftM, monadLift, MonadLift.monadLift, $ts,*])
+
+/-- **`compareLocal` is the Python source of `compare_local`** (with the limit written in the source), for all file
+systems and paths.  No hypotheses. -/
+theorem compareLocal_matches_source (fs : FS) (cache pool : Path) :
+    genCompareLocal fs cache pool = compareLocal sourceLimit fs cache pool := by
+  unfold genCompareLocal compareLocal digest pexists hashFile noHash sourceLimit
+  cases h1 : read fs cache <;> cases h2 : read fs pool <;> simp <;> rfl
+
+/-- **`compareLink` is the Python source of `compare_link`.**  No hypotheses. -/
+theorem compareLink_matches_source (fs : FS) (cache pool : Path) :
+    genCompareLink fs cache pool = compareLink sourceLimit fs cache pool := by
+  unfold genCompareLink compareLink
+  cases h : islink fs cache <;> simp [compareLocal_matches_source]
+
+/-- **`downloadLocal` is the Python source of `download_local`**: same resulting file system or the same error, for all
+file systems and paths.  No hypotheses. -/
+theorem downloadLocal_matches_source (fs : FS) (cache pool : Path) :
+    runM (genDownloadLocal cache pool) fs = downloadLocal sourceLimit fs cache pool := by
+  unfold runM genDownloadLocal downloadLocal
+  rw [← compareLocal_matches_source]
+  cases h : genCompareLocal fs cache pool
+  · m_simp [h]
+    cases copy fs pool cache <;> rfl
+  · m_simp [h]
+
+/-- **`uploadLocal` is the Python source of `upload_local`.**  No hypotheses. -/
+theorem uploadLocal_matches_source (fs : FS) (cache pool : Path) :
+    runM (genUploadLocal cache pool) fs = uploadLocal sourceLimit fs cache pool := by
+  unfold runM genUploadLocal uploadLocal
+  rw [← compareLocal_matches_source]
+  cases h : genCompareLocal fs cache pool
+  · m_simp [h]
+    cases copy fs cache pool <;> rfl
+  · m_simp [h]
+
+/-- **`deleteLocal` is the Python source of `delete_local`.**  No hypotheses. -/
+theorem deleteLocal_matches_source (fs : FS) (pool : Path) :
+    runM (genDeleteLocal pool) fs = deleteLocal fs pool := by
+  unfold runM genDeleteLocal deleteLocal
+  m_simp []
+  cases unlink fs pool <;> rfl
+
+/-- **`uploadLink` is the Python source of `upload_link`** (a symbolic link is refused before anything else).  No
+hypotheses. -/
+theorem uploadLink_matches_source (fs : FS) (cache pool : Path) :
+    runM (genUploadLink cache pool) fs = uploadLink sourceLimit fs cache pool := by
+  unfold genUploadLink uploadLink
+  rw [← uploadLocal_matches_source]
+  cases h : islink fs cache
+  · unfold runM; m_simp [h]
+    generalize genUploadLocal cache pool fs = r
+    cases r <;> rfl
+  · unfold runM; m_simp [h]
+
+/-- **`downloadLink` is the Python source of `download_link`**: skip when `compare_link` holds, refuse to replace real
+data, drop an existing link, then link — in this order.  No hypotheses. -/
+theorem downloadLink_matches_source (fs : FS) (cache pool : Path) :
+    runM (genDownloadLink cache pool) fs = downloadLink sourceLimit fs cache pool := by
+  unfold runM genDownloadLink downloadLink
+  rw [← compareLink_matches_source]
+  cases h : genCompareLink fs cache pool
+  · cases h1 : islink fs cache <;> cases h2 : pexists fs cache
+    all_goals m_simp [h, h1, h2]
+    all_goals first
+      | (cases symlink fs pool cache <;> rfl)
+      | (cases unlink fs cache with
+         | error e => rfl
+         | ok v => dsimp only; cases symlink v pool cache <;> rfl)
+  · m_simp [h]
+
+/-- the generated functions compute: a download copies a missing file, an identical one is left alone, a missing pool
+file raises, real data is never replaced by a link, a link is never uploaded -/
+def fsEx : FS := fun p => if p = "/pool/a" then .file [1, 2, 3] else if p = "/cache/b" then .file [7] else
+  if p = "/cache/l" then .link "/pool/a" else .absent
+example : (runM (genDownloadLocal "/cache/a" "/pool/a") fsEx).map (fun fs => (fs "/cache/a", fs "/pool/a")) =
+    .ok (.file [1, 2, 3], .file [1, 2, 3]) := by rfl
+example : genCompareLocal fsEx "/cache/l" "/pool/a" = true ∧ genCompareLocal fsEx "/cache/b" "/pool/a" = false ∧
+    genCompareLink fsEx "/cache/l" "/pool/a" = true ∧ genCompareLink fsEx "/cache/l" "/pool/x" = false := by decide
+example : (runM (genDownloadLocal "/cache/a" "/pool/none") fsEx).map (fun fs => fs "/cache/a") = .ok .absent := by rfl
+example : (runM (genDownloadLocal "/cache/b" "/pool/none") fsEx).map (fun fs => fs "/cache/b") = .error .fileNotFound := by rfl
+example : (runM (genDownloadLink "/cache/b" "/pool/a") fsEx).map (fun fs => fs "/cache/b") = .error .runtimeError := by rfl
+example : (runM (genDownloadLink "/cache/l" "/pool/x") fsEx).map (fun fs => fs "/cache/l") = .ok (.link "/pool/x") := by rfl
+example : (runM (genUploadLink "/cache/l" "/pool/a") fsEx).map (fun fs => fs "/pool/a") = .error .valueError := by rfl
+example : (runM (genDeleteLocal "/pool/a") fsEx).map (fun fs => fs "/pool/a") = .ok .absent := by rfl
+
+/-! ### The dispatchers `download` / `upload` / `delete` -/
+
+theorem isInfixL_single (c : Char) (l : List Char) : I2N.Rules.isInfixL [c] l = l.contains c := by
+  induction l with
+  | nil => rfl
+  | cons b bs ih =>
+    simp only [I2N.Rules.isInfixL, I2N.Rules.isPrefixL, ih, List.contains_cons, Bool.and_true]
+
+/-- Python's `";" in path` (substring test of `I2N.Rules`) is the model's character test -/
+theorem isSubstr_semicolon (p : List Char) : I2N.Rules.isSubstr ";" (String.ofList p) = p.contains ';' := by
+  have h : (String.ofList p).toList = p := String.toList_ofList
+  unfold I2N.Rules.isSubstr
+  rw [h]
+  exact isInfixL_single ';' p
+
+theorem ofList_eq_empty (l : List Char) : (String.ofList l == "") = (l == []) := by
+  cases l with
+  | nil => rfl
+  | cons a l =>
+    have : String.ofList (a :: l) ≠ "" := by
+      intro h
+      have := congrArg String.toList h
+      simp at this
+    rw [beq_eq_false_iff_ne.mpr this]; rfl
+
+theorem removeChar_ofList (p : List Char) :
+    pyRemoveChar ';' (String.ofList p) = String.ofList (p.filter (· != ';')) := by
+  unfold pyRemoveChar
+  have h : (String.ofList p).toList = p := String.toList_ofList
+  rw [h]
+
+/-- **`download` is the Python source of `TransferOps.download`**: the location string is split at `:`, anything but two parts is
+a `ValueError`, a host part means a remote transfer (outside the model), a `;` in the path selects link mode and is
+removed, everything else is local mode.  No hypotheses. -/
+theorem download_matches_source (fs : FS) (cache spec : String) :
+    runM (genDownload cache spec) fs = download sourceLimit fs cache spec := by
+  unfold genDownload download dispatch splitColonStr remoteM
+  generalize splitColon spec.toList = parts
+  match parts with
+  | [] => unfold runM; m_simp []
+  | [a] => unfold runM; m_simp []
+  | a :: b :: c :: r => unfold runM; m_simp []
+  | [a, b] =>
+    unfold runM
+    m_simp [ofList_eq_empty, isSubstr_semicolon, removeChar_ofList]
+    by_cases ha : a = [] <;> by_cases hb : ';' ∈ b <;> simp only [ha, hb, if_true, if_false]
+    · rw [← downloadLink_matches_source]; unfold runM; m_simp []
+      generalize genDownloadLink cache (String.ofList (List.filter (fun x => x != ';') b)) fs = r
+      cases r <;> rfl
+    · rw [← downloadLocal_matches_source]; unfold runM; m_simp []
+      generalize genDownloadLocal cache (String.ofList b) fs = r
+      cases r <;> rfl
+    · rfl
+    · rfl
+
+/-- **`upload` is the Python source of `TransferOps.upload`**: the location string is split at `:`, anything but two parts is
+a `ValueError`, a host part means a remote transfer (outside the model), a `;` in the path selects link mode and is
+removed, everything else is local mode.  No hypotheses. -/
+theorem upload_matches_source (fs : FS) (cache spec : String) :
+    runM (genUpload cache spec) fs = upload sourceLimit fs cache spec := by
+  unfold genUpload upload dispatch splitColonStr remoteM
+  generalize splitColon spec.toList = parts
+  match parts with
+  | [] => unfold runM; m_simp []
+  | [a] => unfold runM; m_simp []
+  | a :: b :: c :: r => unfold runM; m_simp []
+  | [a, b] =>
+    unfold runM
+    m_simp [ofList_eq_empty, isSubstr_semicolon, removeChar_ofList]
+    by_cases ha : a = [] <;> by_cases hb : ';' ∈ b <;> simp only [ha, hb, if_true, if_false]
+    · rw [← uploadLink_matches_source]; unfold runM; m_simp []
+      generalize genUploadLink cache (String.ofList (List.filter (fun x => x != ';') b)) fs = r
+      cases r <;> rfl
+    · rw [← uploadLocal_matches_source]; unfold runM; m_simp []
+      generalize genUploadLocal cache (String.ofList b) fs = r
+      cases r <;> rfl
+    · rfl
+    · rfl
+
+/-- **`delete` is the Python source of `TransferOps.delete`**: the location string is split at `:`, anything but two parts is
+a `ValueError`, a host part means a remote transfer (outside the model), a `;` in the path selects link mode and is
+removed, everything else is local mode.  No hypotheses. -/
+theorem delete_matches_source (fs : FS) (spec : String) :
+    runM (genDelete spec) fs = delete fs spec := by
+  unfold genDelete delete dispatch splitColonStr remoteM
+  generalize splitColon spec.toList = parts
+  match parts with
+  | [] => unfold runM; m_simp []
+  | [a] => unfold runM; m_simp []
+  | a :: b :: c :: r => unfold runM; m_simp []
+  | [a, b] =>
+    unfold runM
+    m_simp [ofList_eq_empty, isSubstr_semicolon, removeChar_ofList]
+    by_cases ha : a = [] <;> by_cases hb : ';' ∈ b <;> simp only [ha, hb, if_true, if_false]
+    · rw [← deleteLocal_matches_source]; unfold runM; m_simp []
+      generalize genDeleteLocal (String.ofList (List.filter (fun x => x != ';') b)) fs = r
+      cases r <;> rfl
+    · rw [← deleteLocal_matches_source]; unfold runM; m_simp []
+      generalize genDeleteLocal (String.ofList b) fs = r
+      cases r <;> rfl
+    · rfl
+    · rfl
+
+/-- the generated dispatchers compute: local mode, link mode (the `;` is dropped), a remote location, a malformed one -/
+example : (runM (genDownload "/cache/a" ":/pool/a") fsEx).map (fun fs => fs "/cache/a") = .ok (.file [1, 2, 3]) := by rfl
+example : (runM (genDownload "/cache/a" ":/pool;/a") fsEx).map (fun fs => fs "/cache/a") = .ok (.link "/pool/a") := by rfl
+example : (runM (genUpload "/cache/b" "host:/pool/a") fsEx).map (fun fs => fs "/pool/a") = .error .notModelled := by rfl
+example : (runM (genDelete "/pool/a") fsEx).map (fun fs => fs "/pool/a") = .error .valueError := by rfl
+example : (runM (genDelete ":/pool/a") fsEx).map (fun fs => fs "/pool/a") = .ok .absent := by rfl
+
+end Regenerated
 
 end I2N.Props.C14
